@@ -12,6 +12,7 @@ import (
 
 // Unit is one verification unit: a function, a case of a switch inside a function, or a closure.
 type Unit struct {
+	invTag map[string]string // assumed loop-invariant formula -> loopID#name
 	g       *Gen
 	name    string
 	block   *Block
@@ -1104,8 +1105,42 @@ func (u *Unit) checkInvariants(lb *Block, st *State, pos token.Pos, what string,
 		if name == "" {
 			name = fmt.Sprint(i)
 		}
-		u.addObl(u.loopOblName(lb, fmt.Sprintf("%s#%s", what, name)), u.loopProps(lb, c), st, t.S, c.Text, nil)
+		o := u.addObl(u.loopOblName(lb, fmt.Sprintf("%s#%s", what, name)), u.loopProps(lb, c), st, t.S, c.Text, nil)
+		if what == "preserve" {
+			u.filterInvHyps(lb, name, o)
+		}
 	}
+}
+
+// filterInvHyps: `uses NAME: A B ...` in a loop block says that preserving invariant NAME needs,
+// of the loop's named invariants, only NAME itself and A, B, ... as hypotheses. The others are
+// dropped from that obligation (dropping hypotheses is always sound; it keeps quantifier-heavy
+// invariants that are irrelevant to the clause out of the solver's way).
+func (u *Unit) filterInvHyps(lb *Block, name string, o *Obligation) {
+	var allowed map[string]bool
+	for _, c := range lb.clauses("uses") {
+		parts := strings.SplitN(c.Text, ":", 2)
+		if len(parts) != 2 || strings.TrimSpace(parts[0]) != name {
+			continue
+		}
+		allowed = map[string]bool{name: true}
+		for _, a := range strings.Fields(parts[1]) {
+			allowed[a] = true
+		}
+	}
+	if allowed == nil {
+		return
+	}
+	var hyps []string
+	for _, h := range o.Hyps {
+		if tag, ok := u.invTag[h]; ok {
+			if k := strings.LastIndex(tag, "#"); k >= 0 && !allowed[tag[k+1:]] {
+				continue
+			}
+		}
+		hyps = append(hyps, h)
+	}
+	o.Hyps = hyps
 }
 
 func (u *Unit) assumeInvariants(lb *Block, st *State, pos token.Pos) {
@@ -1119,6 +1154,12 @@ func (u *Unit) assumeInvariants(lb *Block, st *State, pos token.Pos) {
 		}
 		t := e.evSpec(c.Text)
 		st.assume(t.S)
+		if c.Name != "" {
+			if u.invTag == nil {
+				u.invTag = map[string]string{}
+			}
+			u.invTag[t.S] = lb.ID() + "#" + c.Name
+		}
 		if c.Kind == "assume" {
 			u.g.Assumed["assumed at the head of "+lb.ID()+" (not proved): "+c.Text] = true
 		}
